@@ -201,7 +201,7 @@ def cell(draw, n):
 SUBS = []
 
 
-def entry(name, strategy, n=(100, 2500), shards=(1, 4)):
+def entry(name, strategy, n=(100, 2500), shards=(2, 4)):
     def deco(call):
         SUBS.append(Sub(f"C05.{name}", make_oracle(call),
                         strategy=lambda tier: strategy, n=n,
@@ -282,10 +282,16 @@ def _(c):
 @st.composite
 def var2h_case(draw):
     n = draw(st.one_of(st.sampled_from([1, 1, 2, 2, 3]), st.integers(1, 8)))
-    steps = [draw(st.one_of(
-        st.sampled_from([0, 1, 600, 1800, 3600, 5400, 86400, -600,
-                         70 * 366 * 86400, 25 * 366 * 86400]),
-        st.integers(1, 4000))) for _ in range(n - 1)]
+    if draw(st.integers(0, 2)) == 0:
+        # a record of a few hours: 1 to 15 output periods
+        n = draw(st.integers(2, 8))
+        steps = [draw(st.sampled_from([600, 1800, 3600, 5400, 7200]))
+                 for _ in range(n - 1)]
+    else:
+        steps = [draw(st.one_of(
+            st.sampled_from([0, 1, 600, 1800, 3600, 5400, 86400, -600,
+                             70 * 366 * 86400, 25 * 366 * 86400]),
+            st.integers(1, 4000))) for _ in range(n - 1)]
     return {"start": draw(st.sampled_from([0, 600, 3599, 3600, 1799])),
             "year": draw(st.sampled_from([1900, 1970, 2000, 2250])),
             "steps": steps, "vals": draw(farr(n)),
